@@ -20,12 +20,22 @@
 (* overwrite, two derived entries appended).                                *)
 (* Property layer: RoundTripP over the two parsed dictionaries, InDomain =  *)
 (* the values the property quantifies over.                                 *)
+(*                                                                         *)
+(* File forms.  A file of key=value lines lies on disk as characters with   *)
+(* line ends: SpikeGLX runs on Windows and leaves CR LF (5 of the shipped   *)
+(* files), tools that touch the file leave LF, and the last line may have   *)
+(* no line end at all (2 of the shipped files).  Frame gives the characters *)
+(* on disk, ReadLines what read_meta_data makes of them (open() in text     *)
+(* mode: universal newlines; str.splitlines()).  Framing: every form gives  *)
+(* the same lines back, so that RoundTrip does not depend on the form.      *)
+(* Variant "rawsplit" (bytes decoded as they are, split at LF) is a wrong   *)
+(* implementation layer that the model must reject.                         *)
 (***************************************************************************)
 EXTENDS Integers, Sequences, FiniteSets, TLC
 
 CONSTANTS MaxLen,      \* value strings of length 0..MaxLen
           MaxLines,    \* files of 0..MaxLines lines (over FileKeys x FileValues)
-          Variant      \* "fixed" | "orig" (before the fix: commit for F11)
+          Variant      \* "fixed" | "orig" (before the fix: commit for F11) | "rawsplit" (self-test of Framing)
 
 VARIABLES v, file
 
@@ -125,6 +135,43 @@ ParseFile(lines) == LET d == ParseLines(lines, <<>>) IN DictSet(d, DerivedKey, D
 WriteFile(d) == [i \in 1..Len(d) |-> d[i][1] \o <<"=">> \o Render(d[i][2])]
 
 -----------------------------------------------------------------------------
+(* file forms: the characters on disk and how the reader gets its lines from them *)
+LF == "N"
+CR == "R"
+Forms == {"lf", "crlf", "lf-nofinal", "crlf-nofinal"}
+LineEnd(form) == IF form \in {"crlf", "crlf-nofinal"} THEN <<CR, LF>> ELSE <<LF>>
+RECURSIVE Frame(_, _)
+Frame(lines, form) ==
+    IF Len(lines) = 0 THEN <<>>
+    ELSE IF Len(lines) = 1
+         THEN lines[1] \o (IF form \in {"lf-nofinal", "crlf-nofinal"} THEN <<>> ELSE LineEnd(form))
+         ELSE lines[1] \o LineEnd(form) \o Frame(Tail(lines), form)
+
+\* open(md_file).read(): text mode with universal newlines (CR LF and a lone CR become LF)
+RECURSIVE Universal(_)
+Universal(s) ==
+    IF Len(s) = 0 THEN <<>>
+    ELSE IF s[1] = CR
+         THEN <<LF>> \o Universal(IF Len(s) > 1 /\ s[2] = LF THEN SubSeq(s, 3, Len(s)) ELSE Tail(s))
+         ELSE <<s[1]>> \o Universal(Tail(s))
+\* str.splitlines(): a line ends at LF, CR LF or CR; nothing follows the last line end
+IsEnd(ch) == ch \in {LF, CR}
+RECURSIVE SplitLines(_)
+SplitLines(s) ==
+    IF Len(s) = 0 THEN <<>>
+    ELSE IF \A i \in 1..Len(s) : ~IsEnd(s[i]) THEN <<s>>
+    ELSE LET k == CHOOSE i \in 1..Len(s) : IsEnd(s[i]) /\ \A j \in 1..(i - 1) : ~IsEnd(s[j])
+             n == IF s[k] = CR /\ k < Len(s) /\ s[k + 1] = LF THEN 2 ELSE 1
+         IN <<SubSeq(s, 1, k - 1)>> \o SplitLines(SubSeq(s, k + n, Len(s)))
+\* the wrong layer: the bytes as they are, line ends stripped at both ends of the text, split at LF
+RECURSIVE StripEnds(_)
+StripEnds(s) == IF Len(s) > 0 /\ IsEnd(s[1]) THEN StripEnds(Tail(s))
+                ELSE IF Len(s) > 0 /\ IsEnd(s[Len(s)]) THEN StripEnds(SubSeq(s, 1, Len(s) - 1))
+                ELSE s
+ReadLines(chars) == IF Variant = "rawsplit" THEN (IF Len(StripEnds(chars)) = 0 THEN <<>> ELSE Split(StripEnds(chars), LF))
+                    ELSE SplitLines(Universal(chars))
+
+-----------------------------------------------------------------------------
 (* property layer *)
 \* the values the property quantifies over: strings, scalars, integer lists
 InDomain(s) ==
@@ -140,7 +187,8 @@ RoundTripP(raised1, raised2, equal) == ~raised1 /\ ~raised2 /\ equal
 -----------------------------------------------------------------------------
 (* the model *)
 Strings(n) == UNION {[1..m -> Alphabet] : m \in 0..n}
-FileKeys == {<<"a">>, <<"~", "a">>, <<"a", "~">>, <<"1">>}
+\* (the last one is DerivedKey: every file that write_meta_data wrote carries the derived entries as lines of their own)
+FileKeys == {<<"a">>, <<"~", "a">>, <<"a", "~">>, <<"1">>, <<"a", "a">>}
 FileValues == {<<>>, <<"a", "=", "1">>, <<"=">>, <<"1", ".", "0">>, <<".", "0", "0", "0", "0", "1">>, <<"1", ",", "0", "1">>,
                <<"~", "a">>}
 Lines == {kk \o <<"=">> \o vv : kk \in FileKeys, vv \in FileValues}
@@ -159,6 +207,8 @@ FileRoundTrip ==
     FileInDomain(file) => LET d1 == ParseFile(file)
                               f2 == WriteFile(d1) IN
                           RoundTripP(FileRaises(file), FileRaises(f2), ParseFile(f2) = d1)
+\* the lines the reader sees do not depend on the form the file has on disk
+Framing == \A form \in Forms : ReadLines(Frame(file, form)) = file
 \* sanity of the implementation layer: what was written is again a line of the grammar
 WrittenInDomain == (InDomain(v) /\ Classify(v) # Raise) => InDomain(Render(Classify(v)))
 
